@@ -438,6 +438,8 @@ def run(ctx):
     ctx.do(c03.r3_5)
     ctx.do(c05.r5_6)
     ctx.do(c13.r13_5)
+    from . import c16 as _c16
+    ctx.do(_c16.r16_5)  # COPYUID reports the UID looked up for each added key
     for k, v in NEXT_UID_WRITERS.items():
         ctx.trust(f"frozen next_uid writer: {k} - {v}")
     for k, v in COMMIT_EXEMPT.items():
